@@ -107,6 +107,7 @@ func check(c Case) error {
 	for i, f := range c.Filters {
 		funcs[i] = f.Accept
 	}
+	past()
 	var got []string
 	if len(c.Bans) == 0 && len(c.Filters) == 0 {
 		got = primers.CreateBarcodes(c.Length, c.Order)
@@ -285,6 +286,35 @@ func TestSub_sequence(t *testing.T) {
 				}
 			}
 		}
+	})
+}
+
+// past: before the first judged barcode list of a process, every word of 2..4 letters has been a banned sequence once
+// (the bans the cases to come will use again and again), and after that several thousand distinct 8-letter words (quick:
+// 1000 calls with five each; thorough: 13000 calls - nearly every 8-letter word there is).
+func past() {
+	var short []string
+	vk.EachString("ACGT", 2, 4, func(w string) bool { short = append(short, w); return true })
+	word8 := func(k int) string {
+		k = (k*40503 + 7) & 0xffff // odd multiplier: a permutation of the 65536 eight-letter words
+		b := make([]byte, 8)
+		for i := range b {
+			b[i] = "ACGT"[k&3]
+			k >>= 2
+		}
+		return string(b)
+	}
+	vk.Past("banned sequences", (len(short)+4)/5, vk.Pick(1000, 13000), func(i int, probe bool) {
+		defer func() { _ = recover() }()
+		var bans []string
+		for j := 0; j < 5; j++ {
+			if probe {
+				bans = append(bans, short[(5*i+j)%len(short)])
+			} else {
+				bans = append(bans, word8(5*i+j))
+			}
+		}
+		_ = primers.CreateBarcodesWithBannedSequences(8, 2+i%2, bans, nil)
 	})
 }
 
